@@ -33,6 +33,16 @@ func (r *run) minInt(a, b value) value {
 		}
 	}
 	at, bt := intTerm(a), intTerm(b)
+	// decide by interval analysis when possible (bounds learned from the path condition)
+	if ea, eb := parseSexp(at), parseSexp(bt); ea != nil && eb != nil {
+		ia, ib := r.intervalOf(ea), r.intervalOf(eb)
+		if ia.hi != nil && ib.lo != nil && ia.hi.Cmp(ib.lo) <= 0 {
+			return a
+		}
+		if ib.hi != nil && ia.lo != nil && ib.hi.Cmp(ia.lo) <= 0 {
+			return b
+		}
+	}
 	return intSym("(ite (< " + at + " " + bt + ") " + at + " " + bt + ")")
 }
 
